@@ -34,13 +34,16 @@ MENU = ['fail', 'error', 'fail@1', 'error@2', 'sub_skip', 'uxs', 'skip_dec', 'sk
 HMENU = [{'s': 'sub:1,1,0', 'subm': 'page one\x0cpage two\u2028three\x85four\x1cfive\x0bsix'}]
 DMENU = [{'dt': 'string', 's': 'fail', 'dk': 'diff'}, {'dt': 'file', 's': 'fail', 'dk': 'exc'},
          {'dt': 'string', 's': 'pass'}, {'dt': 'file', 's': 'pass'}]
-MODEARGS = {'seq': [], 'j2': ['-j2'], 'j3': ['-j3']}
+MODEARGS = {'seq': [], 'j2': ['-j2'], 'j3': ['-j3'],
+            # children whose real stderr carries more text after the report
+            # (atexit handlers, interpreter shutdown messages)
+            'j2+late': ['-j2']}
 
 
 def cases(tier, seed):
     K = 1 if tier == 'quick' else 2
     vs = [0, 1, 2] if tier == 'quick' else [0, 1, 2, 3]
-    modes = ['seq', 'j2'] if tier == 'quick' else ['seq', 'j2', 'j3']
+    modes = ['seq', 'j2', 'j2+late'] if tier == 'quick' else ['seq', 'j2', 'j3', 'j2+late']
     menu = worlds.rot(MENU + DMENU + HMENU, seed)
     for shape in ow.SHAPES:
         nslots = len(ow.SHAPES[shape][1])
@@ -78,7 +81,11 @@ def run_case(case):
         argv.append('-' + 'v' * v)
     if rep > 1:
         argv += ['--repeat', str(rep)]
-    res = runrt.run_world(spec, argv)
+    hook = None
+    if mode == 'j2+late':
+        def hook(layer, args):
+            return ('mangle', lambda out, err: (out, err + b'Exception ignored in: <function f at 0x7f>\nlate text on stderr\n'))
+    res = runrt.run_world(spec, argv, child_hook=hook)
     sv = monitors.SpecView(spec)
     truth = ow.Truth(spec, res)
     kinds = sorted({((s.get('dt', '') + s['s'] + ('+subm' if 'subm' in s else '')) if isinstance(s, dict) else s) for s in sc if s != 'pass'})
